@@ -651,6 +651,9 @@ SEND_VALUES = (
     ('[1.5 2.5]', [1.5, 2.5]), ('[[1 2] [3 4]]', [[1, 2], [3, 4]]), ('[1 [2 3]]', [1, [2, 3]]), ('["a" "bc"]', ['a', 'bc']),
     ('[]', []), (':{["a" 1]}', {'a': 1}), (':{["a" [1 2]] ["b" "c"]}', {'a': [1, 2], 'b': 'c'}),
     ('[1 2 3]@0', 1), ('[1.5 2.5]@0', 1.5), ('+/[1 2 3]', 6), ('#[1 2 3]', 3), ('1+1', 2),
+    # dictionary keys of other kinds than strings, alone and mixed with string keys (JSON member names are their text)
+    (':{[1 "one"]}', {'1': 'one'}), (':{[1 "one"] ["a" 2]}', {'1': 'one', 'a': 2}), (':{["b" 1] ["a" 2]}', {'b': 1, 'a': 2}),
+    (':{["k" :{[2 [1 2]] ["n" 1.5]}]}', {'k': {'2': [1, 2], 'n': 1.5}}), ('(,:{[1 2] ["a" 2]}),7', [{'1': 2, 'a': 2}, 7]),
 )
 
 
